@@ -6,6 +6,7 @@ import (
 	"os"
 	"path"
 	"path/filepath"
+	"sort"
 	"strings"
 
 	"github.com/martian-lang/martian/martian/verifsim/vos"
@@ -41,6 +42,14 @@ func (r *Run) recordedTokens(v interface{}) interface{} {
 	switch x := v.(type) {
 	case string:
 		if strings.HasPrefix(x, r.PsDir+"/") {
+			if kids, isDir := r.Dirs[x]; isDir {
+				var parts []string
+				for _, k := range kids {
+					parts = append(parts, path.Base(k)+"="+r.Files[k].Content)
+				}
+				sort.Strings(parts)
+				return "DIR:" + strings.Join(parts, ";")
+			}
 			if rec := r.fileRec(x); rec != nil {
 				return "FILE:" + rec.Content
 			}
@@ -80,8 +89,8 @@ func vdrCase(c *Ctx, focus string) {
 		c.Res.Probes["template-program"]++
 	}
 	mode := []string{"rolling", "post", "strict"}[c.Plan.Draw(3)]
-	cfg := &RunCfg{Prog: prog, FCfg: &FCfg{MaxLen: 1 + c.Plan.Draw(3), MaxChunks: c.Plan.Draw(4), Salt: "vdr"},
-		MaxSteps: 80000, ExtraFiles: true, LinkDirs: c.Plan.Draw(3) == 0, Companions: c.Plan.Draw(2) == 0}
+	cfg := &RunCfg{Prog: prog, FCfg: &FCfg{MaxLen: 1 + c.Plan.Draw(3), MaxChunks: c.Plan.Draw(4), Salt: "vdr", AllowNil: c.Plan.Draw(3) == 0},
+		MaxSteps: 80000, ExtraFiles: true, LinkDirs: c.Plan.Draw(3) == 0, Companions: c.Plan.Draw(2) == 0, DirOutputs: c.Plan.Draw(3) == 0}
 	cfg.Flags = append(baseFlags(c.Plan), "--vdrmode="+mode)
 	swarmSched(c.Plan, cfg)
 	// the detached cleanup goroutines are "aux" tasks: vary their priority strongly
@@ -99,6 +108,8 @@ func vdrCase(c *Ctx, focus string) {
 	if len(r.Panics) > 0 {
 		c.Res.Class = "mrp-panicked"
 		c.Res.Notes = append(c.Res.Notes, "mrp panic: "+firstLines(r.Panics[0], 3))
+		c.Res.Violations = append(c.Res.Violations, Violation{"OBS", "mrp-panic", firstLines(r.Panics[0], 14), r.Steps})
+		c.Res.Sample = describeRun(r, true)
 		return
 	}
 	if len(vos.W.Outside) > 0 {
@@ -186,6 +197,16 @@ func vdrCase(c *Ctx, focus string) {
 			if named[p] {
 				continue // moved to outs/ by post-processing
 			}
+			if kids, isDir := r.Dirs[p]; isDir {
+				for _, k := range kids {
+					if b, err := os.ReadFile(k); err != nil {
+						add("C04", "retained-file-removed", "file below a directory named by a retained output is gone: "+strings.TrimPrefix(k, r.PsDir+"/"))
+					} else if r.Files[k].Content != string(b) {
+						add("C04", "retained-file-changed", strings.TrimPrefix(k, r.PsDir+"/"))
+					}
+				}
+				continue
+			}
 			b, err := os.ReadFile(p)
 			if err != nil {
 				add("C04", "retained-file-removed", "file named by a retained output is gone: "+strings.TrimPrefix(p, r.PsDir+"/"))
@@ -246,7 +267,8 @@ func vdrCase(c *Ctx, focus string) {
 			continue
 		}
 		c.Res.Probes["volatile-files"]++
-		keep := named[p] || retained[p] || (rec.Logical != "" && (named[rec.Logical] || retained[rec.Logical]))
+		keep := named[p] || retained[p] || (rec.Logical != "" && (named[rec.Logical] || retained[rec.Logical])) ||
+			(rec.InDir != "" && (named[rec.InDir] || retained[rec.InDir]))
 		if !keep && exists(p) {
 			add("C14", "volatile-file-left", fmt.Sprintf("file of volatile stage %s survives completion although neither a top-level output nor a retain names it: %s", in.Index, rel))
 		}
@@ -339,6 +361,37 @@ func vdrCase(c *Ctx, focus string) {
 			}
 		}
 		if !interrupted && path.Dir(p) != r.PsDir {
+			// upper bound, exact with respect to the file system: everything the
+			// storage code removed below this fork, measured by the disk seam just
+			// before each removal (files and the directories holding them)
+			forkDir := "ps/" + strings.TrimPrefix(path.Dir(p), r.PsDir+"/")
+			var rmEntries, linkEntries int
+			var rmBytes, linkBytes int64
+			for _, ev := range vos.W.Events {
+				if ev.Site == "storage.go" && ev.Err == "" && (ev.Op == "removeall" || ev.Op == "remove") &&
+					strings.HasPrefix(ev.Path, forkDir+"/") {
+					rmEntries += ev.RmFiles + ev.RmDirs
+					rmBytes += ev.RmFileBytes + ev.RmDirBytes
+					linkEntries += ev.RmLinkEntries
+					linkBytes += ev.RmLinkBytes
+				}
+			}
+			// files below a symlinked directory have two names; martian's per-file
+			// bookkeeping knows both and accounts the file under each
+			aliased := false
+			for lp := range r.Logical {
+				if strings.HasPrefix(lp, path.Dir(p)+"/") {
+					aliased = true
+				}
+			}
+			if (int(rep.Count) > rmEntries+linkEntries || int64(rep.Size) > rmBytes+linkBytes) && !aliased {
+				add("C14", "kill-report-exceeds-what-was-removed", fmt.Sprintf("%s reports %d entries / %d bytes, but all removals below that fork together found only %d entries / %d bytes",
+					strings.TrimPrefix(p, r.PsDir+"/"), rep.Count, rep.Size, rmEntries, rmBytes))
+			} else if int(rep.Count) > rmEntries || int64(rep.Size) > rmBytes {
+				// the stage left a symlink to a directory in its files directory
+				add("C14", "kill-report-counts-files-below-symlinked-directory-twice", fmt.Sprintf("%s reports %d entries / %d bytes, the removals below that fork found %d entries / %d bytes (following the removed directory symlinks: %d more entries / %d bytes): what lies below a symlinked directory is accounted under both of its names",
+					strings.TrimPrefix(p, r.PsDir+"/"), rep.Count, rep.Size, rmEntries, rmBytes, linkEntries, linkBytes))
+			}
 			c.Res.Probes["kill-report-accounting-checked"]++
 			if rep.Size < knownBytes || rep.Count < knownFiles {
 				add("C14", "kill-report-undercounts", fmt.Sprintf("%s reports %d files / %d bytes but lists paths holding %d stage files / %d bytes",
